@@ -304,6 +304,10 @@ class Run:
         self.known_hits[entry_id] = what
 
     def finish(self):
+        hc = sys.modules.get("histcheck")
+        if hc is not None and getattr(hc, "OPS", None):
+            self.cov.setdefault("distribution", {})["history operations"] = dict(sorted(hc.OPS.items(), key=lambda kv: -kv[1]))
+            self.cov["distribution"]["history lengths"] = {str(k): v for k, v in sorted(hc.HIST_LEN.items())}
         os.makedirs(OUT_EVID, exist_ok=True)
         os.makedirs(OUT_REPLAYS, exist_ok=True)
         rc = 0
@@ -433,6 +437,19 @@ def correspond(run, model_exe, impl_exe, lines, cfgstr, label, nontrivial=None, 
         if a != b:
             mism.append((k, l, a, b))
     run.cov["disagreements_checked"] += len(lines)
+    # distribution of what was explored (measured on this run): the model's outcome (first token of its answer: an error
+    # code, a result or a short value) and the size of the case, per stream of cases
+    dist = run.cov.setdefault("distribution", {})
+    d = dist.setdefault(f"{label} [{cfgstr}]", {"cases": 0, "outcomes": {}, "case_size_log2": {}})
+    d["cases"] += len(lines)
+    for l, a in zip(lines, mo):
+        tok = a.split(" ")[0][:16] if a else "-"
+        if len(d["outcomes"]) < 24 or tok in d["outcomes"]:
+            d["outcomes"][tok] = d["outcomes"].get(tok, 0) + 1
+        else:
+            d["outcomes"]["(other)"] = d["outcomes"].get("(other)", 0) + 1
+        b = str(max(0, len(l)).bit_length())
+        d["case_size_log2"][b] = d["case_size_log2"].get(b, 0) + 1
     if icrash:
         k = io.index("<crash>") if "<crash>" in io else -1
         run.violation(f"{label}: implementation crashed / sanitizer report on case {lines[k] if k >= 0 else '?'}",
